@@ -372,3 +372,148 @@ def gen_probes(r: random.Random, w: World) -> None:
         w.cfg[name] = {"class": "ProbeEvent"}
         si = r.randrange(len(w.sessions))
         w.sessions[si].setdefault("events", []).append(name)
+
+
+# ---------------------------------------------------------------------- rule-event profiles (C14, C15, C16)
+def gen_rules(r: random.Random, profile: str) -> Dict[str, Any]:
+    w = World(r)
+    P = profile
+    if P == "shocks":
+        n = r.randint(2, 4)
+        for i in range(n):
+            tick = r.choice([1.0, 1.0, 0.5, 0.1])
+            w.add_market(f"M{i}", tick, float(r.choice([100, 300, 50])),
+                         vol=r.choice([0.0, 0.0, 0.005, 0.02]), drift=r.choice([0.0, 0.0, 0.001, -0.003]),
+                         price_key=r.choice(["marketPrice", "fundamentalPrice"]))
+        w.add_scripted("SA", r.randint(2, 5), False)
+        if r.random() < 0.4:
+            w.add_scripted("SH", r.randint(1, 2), True)
+        for i in range(r.randint(1, 3)):
+            w.add_session(r.randint(2, 9), r.random() < 0.9, r.random() < 0.8,
+                          max_normal=r.choice([2, 3, 6]), max_hft=2, rate=r.choice([1.0, 0.5]))
+        fill_scripts(r, w, p_empty=r.choice([0.1, 0.3]), p_cancel=0.1, p_market=0.05, p_ttl=0.3, max_ops=4)
+        k = 0
+        for _ in range(r.randint(1, 4)):
+            si = r.randrange(len(w.sessions))
+            s = w.sessions[si]
+            name = f"EV{k}"
+            k += 1
+            tgt = r.choice(w.markets)["name"]
+            if r.random() < 0.55:
+                w.cfg[name] = {"class": "FundamentalPriceShock", "target": tgt,
+                               "triggerTime": r.randrange(0, s["iterationSteps"] + 3),
+                               "priceChangeRate": r.choice([-0.5, -0.1, -0.01, 0.01, 0.2, 0.5]),
+                               "shockTimeLength": r.randint(1, 4), "enabled": r.random() < 0.85}
+                if r.random() < 0.2:
+                    del w.cfg[name]["shockTimeLength"]
+            else:
+                w.cfg[name] = {"class": "OrderMistakeShock", "target": tgt,
+                               "triggerTime": r.randrange(0, s["iterationSteps"]),
+                               "priceChangeRate": r.choice([-0.3, -0.05, 0.0, 0.05, 0.4]),
+                               "orderVolume": r.randint(1, 50), "orderTimeLength": r.randint(1, 6),
+                               "enabled": r.random() < 0.85}
+            s.setdefault("events", []).append(name)
+        return w.scenario()
+    if P == "limit":
+        n = r.randint(2, 4)
+        for i in range(n):
+            tick = r.choice([1.0, 0.5, 0.3, 10.0, 0.1])
+            p0 = float(round(r.choice([100, 300, 1000]) / tick) * tick)
+            w.add_market(f"M{i}", tick, p0)
+        names = [m["name"] for m in w.markets]
+        rate = r.choice([0.01, 0.05, 0.1, 0.3])
+        all_targets = r.random() < 0.35
+        targets = names if all_targets else r.sample(names, r.randint(1, n - 1))
+        w.add_scripted("SA", r.randint(2, 5), False)
+        if r.random() < 0.4:
+            w.add_scripted("SH", 1, True)
+        ns = r.randint(1, 3)
+        for i in range(ns):
+            w.add_session(r.randint(2, 10), True, r.random() < 0.8, max_normal=r.choice([2, 3, 6]), max_hft=2, rate=1.0)
+        si = r.randrange(ns)
+        w.cfg["PL"] = {"class": "PriceLimitRule", "targetMarkets": targets, "triggerChangeRate": rate,
+                       "enabled": r.random() < 0.9}
+        w.sessions[si].setdefault("events", []).append("PL")
+        if r.random() < 0.2:
+            w.cfg["PL2"] = {"class": "PriceLimitRule", "targetMarkets": r.sample(names, r.randint(1, n)) if all_targets else targets,
+                            "triggerChangeRate": r.choice([0.02, 0.2]), "enabled": True}
+            w.sessions[r.randrange(ns)].setdefault("events", []).append("PL2")
+        steps = w.total_steps()
+        facs = [1 + rate, 1 - rate, 1 + rate * (1 + 1e-6), 1 - rate * (1 + 1e-6), 1 + rate * (1 - 1e-6), 1 - rate * (1 - 1e-6),
+                1 + 2 * rate, 1 - 2 * rate, 1 + rate / 2, 1 - rate / 2, 1.0, 0.3, 3.0, 1 + rate * 1.01, 1 - rate * 0.99]
+        for a in w.scripted:
+            turns = []
+            for _ in range(steps * (2 if a["hft"] else 1) + 2):
+                if r.random() < 0.25:
+                    turns.append([])
+                    continue
+                ops = []
+                for _ in range(r.randint(1, 3)):
+                    mi = r.randrange(len(a["markets"]))
+                    u = r.random()
+                    if u < 0.1:
+                        ops.append({"k": "market", "m": mi, "side": r.choice("bs"), "vol": r.randint(1, 3)})
+                    elif u < 0.2:
+                        ops.append({"k": "cancel", "m": mi, "ref": "live", "nth": r.randrange(6)})
+                    else:
+                        ops.append({"k": "limit", "m": mi, "side": r.choice("bs"),
+                                    "px": {"mode": "relp0", "f": r.choice(facs)}, "vol": r.randint(1, 4),
+                                    **({"ttl": r.randint(1, 5)} if r.random() < 0.4 else {})})
+                turns.append(ops)
+            w.scripts[a["name"]] = turns
+        return w.scenario()
+    if P == "halt":
+        n = r.randint(1, 3)
+        for i in range(n):
+            w.add_market(f"M{i}", r.choice([1.0, 0.5, 0.1, 0.01]), float(r.choice([100, 300, 1000])))
+        names = [m["name"] for m in w.markets]
+        w.add_scripted("SA", r.randint(2, 5), False)
+        if r.random() < 0.4:
+            w.add_scripted("SH", r.randint(1, 2), True)
+        ns = r.randint(1, 4)
+        for i in range(ns):
+            w.add_session(r.randint(2, 16), r.random() < 0.95, r.random() < 0.7, max_normal=r.choice([2, 3, 6]),
+                          max_hft=2, rate=r.choice([1.0, 0.5]))
+        if not any(s["withOrderExecution"] for s in w.sessions):
+            w.sessions[-1]["withOrderExecution"] = True
+        exec_sessions = [i for i, s in enumerate(w.sessions) if s["withOrderExecution"]]
+        k = 0
+        used = set()
+        for _ in range(r.randint(1, 2)):
+            two = r.random() < 0.15 and n >= 2
+            tg = r.sample(names, 2) if two else [r.choice(names)]
+            if any(t in used for t in tg) and r.random() < 0.8:
+                continue
+            used.update(tg)
+            name = f"TH{k}"
+            k += 1
+            w.cfg[name] = {"class": "TradingHaltRule", "targetMarkets": tg,
+                           "triggerChangeRate": r.choice([0.005, 0.01, 0.02, 0.05, 0.1]),
+                           "haltingTimeLength": r.randint(1, 8), "enabled": r.random() < 0.92}
+            si = r.choice(exec_sessions) if r.random() < 0.85 else r.randrange(ns)
+            w.sessions[si].setdefault("events", []).append(name)
+        steps = w.total_steps()
+        step_sizes = [0.0, 0.002, 0.004, 0.008, 0.012, 0.02, 0.03, 0.06]
+        for a in w.scripted:
+            turns = []
+            bias = r.choice([-1, 1, 1, 0])
+            for _ in range(steps * (2 if a["hft"] else 1) + 2):
+                if r.random() < 0.2:
+                    turns.append([])
+                    continue
+                ops = []
+                for _ in range(r.randint(1, 3)):
+                    mi = r.randrange(len(a["markets"]))
+                    u = r.random()
+                    d = r.choice(step_sizes) * (bias if bias and r.random() < 0.7 else r.choice([-1, 1]))
+                    if u < 0.12:
+                        ops.append({"k": "market", "m": mi, "side": r.choice("bs"), "vol": r.randint(1, 3)})
+                    elif u < 0.2:
+                        ops.append({"k": "cancel", "m": mi, "ref": "live", "nth": r.randrange(6)})
+                    else:
+                        ops.append({"k": "limit", "m": mi, "side": r.choice("bs"), "px": {"mode": "rel", "f": 1.0 + d},
+                                    "vol": r.randint(1, 4), **({"ttl": r.randint(1, 4)} if r.random() < 0.5 else {})})
+                turns.append(ops)
+            w.scripts[a["name"]] = turns
+        return w.scenario()
+    raise ValueError(P)
